@@ -502,8 +502,8 @@ def run(ctx):
                 "width - none / reaching over the origin on either side / whole record; second: every listed core with a symmetric "
                 "neighbourhood), no or one subregion (arcs of the listed sizes and starts incl. over the origin, or the whole record) "
                 "and the gene set (plain genes incl. one over the origin and one reverse, one core gene per protocluster annotated "
-                "for both products so that overlapping cores form chemical hybrids, a reverse gene over the origin); every such record is built for real and every region of it laid out by "
-                "build_area_rows and js.convert_regions; plus seeded random records of 30-150 bases (1-5 areas with independent "
+                "for both products so that overlapping cores form chemical hybrids, a reverse gene over the origin); every such record "
+                "is built for real and every region of it laid out by build_area_rows and js.convert_regions; plus seeded random records of 30-150 bases (1-5 areas with independent "
                 "left/right neighbourhoods, 1-6 genes, areas drawn to the origin half of the time); non-trivial = the record has "
                 "a region over the origin or a whole-record region of a ring")
     ctx.notes.update({"enumerated_universes": enumerated, "random_universes": len(cases) - enumerated,
@@ -517,6 +517,8 @@ def run(ctx):
                         "two areas touching end-to-start on one row do not overlap",
                         "sandwich (DESIGN 5): candidates that are not 'single' are drawn exactly once, 'single' ones at most once",
                         "an area over the origin that covers the whole record may be drawn in one piece or as two linked halves",
+                        "js.get_description compiles the tooltip template once per gene; the harness keeps the compiled template per "
+                        "process (html_renderer.FileTemplate wrapped by a cache), nothing about coordinates depends on it",
                         "records the real code refuses to build (exception from add_* / create_*) have no layout and are counted in "
                         "records_not_built; candidate and region formation themselves are C05 / C06"]
 
